@@ -170,6 +170,14 @@ Cross10 == {
   << Mk2("$merge", L(<<Single("id", I("2")), S("t")>>), "own", I("9")), Tgt %% Single("own", I("9")) >>,
   << Single("$replace", Single("$match", Single("id", I("2")))), Other >>
 }
+(* the referenced document is itself a root-level $merge / $replace host with other keys *)
+HostDoc == Mk3("id", I("2"), "parts", Single("v", I("2")), "$merge", Mk2("$match", Single("id", I("3")), "$path", S("tmpl")))
+TmplDoc == Mk2("id", I("3"), "tmpl", Single("w", I("9")))
+CrossHost10 == {
+  << Mk2("z", I("3"), "$merge", Mk2("$match", Single("id", I("2")), "$path", S("parts"))), Mk2("z", I("3"), "v", I("2")) >>,
+  << Single("$replace", L(<<Single("id", I("2")), S("parts")>>)), Single("v", I("2")) >>,
+  << S("$merge:[{id: 2}, parts, v]"), I("2") >>
+}
 CrossBad10 == { Single("$replace", Mk2("$match", Single("id", I("7")), "$path", S("t"))),
                 Single("$replace", L(<<Mk2("$invert", True, "id", I("1")), S("t")>>)),
                 Single("$replace", L(<<EmptyMap, S("t")>>)) }
@@ -195,6 +203,10 @@ CasesC10 ==
   \cup {Case(<<DocC10(b)>>, NoEnv, "bad") : b \in Bad10}
   \cup {Case(<<Mk2("id", I("1"), "h", p[1]), Other, Third>>, NoEnv, "cross") : p \in Cross10}
   \cup {Case(<<Mk2("id", I("1"), "h", b), Other, Third>>, NoEnv, "crossbad") : b \in CrossBad10}
+  \cup {CaseX(<<Mk2("id", I("1"), "h", p[1]), HostDoc, TmplDoc>>, NoEnv, "crosshost", p[2]) : p \in CrossHost10}
+  (* two documents match; one of them is a $merge host: still ambiguous *)
+  \cup {Case(<<Mk2("id", I("1"), "h", Single("$replace", L(<<Single("parts", Single("v", I("2"))), S("parts")>>))),
+               HostDoc, TmplDoc, Mk2("id", I("4"), "parts", Single("v", I("2")))>>, NoEnv, "crossbad") : dummy \in {1}}
 
 HostOf(r) == At(r.v[1], "h")
 LawC10(cs) ==
@@ -214,6 +226,9 @@ LawC10(cs) ==
          LET full == Eval1(cs.docs[1])
              rest == Eval1(Del(cs.docs[1], cs.aux[1]))
          IN full.ok => (rest.ok /\ \A k \in {cs.aux[2], cs.aux[3]} : At(full.v[1], k) = At(rest.v[1], k))
+    [] cs.tag = "crosshost" ->
+         LET a == EvalS(cs.docs, NoEnv) IN
+         cs.docs[1] = cs.docs[1] /\ (a.ok \/ a.err = "undef") /\ (a.ok => At(a.v[1], "h") = cs.aux)
     [] cs.tag \in {"bad", "crossbad"} -> ~EvalS(cs.docs, NoEnv).ok
     [] cs.tag = "cross" ->
          \E p \in Cross10 : cs.docs[1] = Mk2("id", I("1"), "h", p[1]) /\
@@ -392,7 +407,7 @@ LawC14(cs) ==
 (* C08: reference graphs on three named subtrees; every node has at most    *)
 (* one outgoing reference, in every form                                    *)
 Nodes08 == {"x", "y", "z"}
-Forms08 == {<<"plain", "">>} \cup {<<f, t>> : f \in {"mapmerge", "mapreplace", "strmerge", "listmerge", "listreplace", "interp"}, t \in Nodes08}
+Forms08 == {<<"plain", "">>} \cup {<<f, t>> : f \in {"mapmerge", "mapreplace", "strmerge", "listmerge", "listreplace", "interp", "interp2", "interp3"}, t \in Nodes08}
             \cup {<<"selfwhole", "">>}
 Node08(f) ==
   CASE f[1] = "plain" -> Single("v", I("1"))
@@ -402,15 +417,20 @@ Node08(f) ==
     [] f[1] = "listmerge" -> L(<<Single("$merge", S(f[2])), I("9")>>)
     [] f[1] = "listreplace" -> L(<<I("8"), Single("$replace", S(f[2]))>>)
     [] f[1] = "interp" -> S("$\"<{" \o f[2] \o "}>\"")
+    [] f[1] = "interp2" -> S("$\"<{" \o f[2] \o "}|{k}>\"")      \* a second placeholder that always resolves
+    [] f[1] = "interp3" -> S("$\"<{k}|{" \o f[2] \o "}{" \o f[2] \o "}>\"")
     [] f[1] = "selfwhole" -> Mk2("$merge", EmptyList, "own", I("1"))
+(* the universe is partitioned over TLC processes on the first node's form, so *)
+(* that no process has to build all 26^3 documents                            *)
+Forms08Seq == SetToSeq(Forms08)
+MyForms08 == {Forms08Seq[i] : i \in {j \in DOMAIN Forms08Seq : j % NShards = Shard}}
+(* two whole-document self-merges feed each other: a cycle with fan-out, the   *)
+(* known finding c08-branching-cycle, probed separately by the harness         *)
+IsSelf(f) == IF f[1] = "selfwhole" THEN 1 ELSE 0
 CasesC08 ==
-  {CaseX(<<Mk3("x", Node08(fx), "y", Node08(fy), "z", Node08(fz))>>, NoEnv, "refgraph", <<fx, fy, fz>>)
-     : fx \in Forms08, fy \in Forms08, fz \in Forms08}
-  (* two whole-document self-merges feed each other: a cycle with fan-out,   *)
-  (* the known finding c08-branching-cycle, probed separately by the harness *)
-  \ {cs \in {CaseX(<<Mk3("x", Node08(fx), "y", Node08(fy), "z", Node08(fz))>>, NoEnv, "refgraph", <<fx, fy, fz>>)
-               : fx \in Forms08, fy \in Forms08, fz \in Forms08} :
-        Cardinality({i \in 1..3 : cs.aux[i][1] = "selfwhole"}) >= 2}
+  UNION {{CaseX(<<Mk4("x", Node08(fx), "y", Node08(fy), "z", Node08(fz), "k", I("7"))>>, NoEnv, "refgraph", <<fx, fy, fz>>)
+            : fz \in {f \in Forms08 : IsSelf(fx) + IsSelf(fy) + IsSelf(f) < 2}}
+         : fx \in MyForms08, fy \in Forms08}
 EdgeOf(aux, n) == LET f == IF n = "x" THEN aux[1] ELSE IF n = "y" THEN aux[2] ELSE aux[3] IN
                   IF f[1] \in {"plain", "selfwhole"} THEN "" ELSE f[2]
 FormOf(aux, n) == (IF n = "x" THEN aux[1] ELSE IF n = "y" THEN aux[2] ELSE aux[3])[1]
@@ -419,7 +439,7 @@ Reach08(aux, n, k) == IF k = 0 \/ n = "" THEN {} ELSE {EdgeOf(aux, n)} \cup Reac
 OnCycle(aux, n) == n \in Reach08(aux, n, 3)
 (* a cycle made only of forms that keep the reference in place while it is followed *)
 StrictCycle(aux) == \E n \in Nodes08 : OnCycle(aux, n) /\
-                      \A k \in (Reach08(aux, n, 3) \cap Nodes08) : OnCycle(aux, k) => FormOf(aux, k) \in {"mapreplace", "strmerge", "listreplace", "interp"}
+                      \A k \in (Reach08(aux, n, 3) \cap Nodes08) : OnCycle(aux, k) => FormOf(aux, k) \in {"mapreplace", "strmerge", "listreplace", "interp", "interp2", "interp3"}
 Acyclic(aux) == \A n \in Nodes08 : ~OnCycle(aux, n)
 LawC08(cs) ==
   LET r == EvalS(cs.docs, NoEnv) IN
@@ -449,7 +469,7 @@ Emit(cs) ==
                            err |-> IF r.ok THEN "" ELSE r.err]))
 
 (* a deterministic partition of the cases over TLC processes *)
-Mine(cs) == (Len(ToJson(cs.docs)) % NShards) = Shard
+Mine(cs) == Family = "C08" \/ (Len(ToJson(cs.docs)) % NShards) = Shard
 
 Init == c \in {x \in Cases : Mine(x)} /\ phase = "new"
 Next == /\ phase = "new"
